@@ -129,7 +129,10 @@ DecExpected(e) == IF e.kind = "pk_bytes" THEN PtBytes(DecodePoint(e.input))
                   ELSE IF e.kind = "sk_hex" THEN SkHex(HexDecode(e.input))
                   ELSE IF e.kind = "spki_der" THEN SpkiExp(SpkiDecode(e.input))
                   ELSE IF e.kind = "pkcs8_der" THEN P8Exp(Pkcs8Decode(e.input))
-                  ELSE <<"lenient">>                                   \* PEM: judged through re-encoding when canonical (below)
+                  \* a PEM text the driver assembled from a DER it also logged: if the text IS the PEM armour of that DER, the document is judged by the DER templates
+                  ELSE IF e.kind = "pkcs8_pem" /\ Len(e.der) > 0 /\ Pem(LabelPriv, e.der) = e.input THEN P8Exp(Pkcs8Decode(e.der))
+                  ELSE IF e.kind = "spki_pem" /\ Len(e.der) > 0 /\ Pem(LabelPub, e.der) = e.input THEN SpkiExp(SpkiDecode(e.der))
+                  ELSE <<"lenient">>                                   \* other PEM: judged through re-encoding when canonical (below)
 IsPub(e) == e.kind \in {"pk_bytes", "pk_hex", "spki_der", "spki_pem"}
 ValidOut(e) == IF IsPub(e) THEN DecodePoint(e.out)[1] = "ok" ELSE ValidPrivate(e.out) \/ Len(e.out) = 32
 \* canonical PEM documents (library-made or OpenSSL-made): decoding must succeed and re-encode to the same text
